@@ -387,7 +387,7 @@ def accept_ctt_k1(mc: int, p1: int, t1: int) -> bool:
     return _cell([1, 0, 0], mc, [(p1, t1)], "C33")
 
 
-@cond(q=150, t=3000, tiers=("thorough",), engine="coop", encoded=ENCODED, stubs=ASSUMPTIONS, bound=_CB % ("connection timeout", 2), signature=_cell_sig([1, 0], "C33"), replay=_real_replay([1, 0], "C33"))
+@cond(q=150, t=6500, tiers=("thorough",), engine="coop", encoded=ENCODED, stubs=ASSUMPTIONS, bound=_CB % ("connection timeout", 2), signature=_cell_sig([1, 0], "C33"), replay=_real_replay([1, 0], "C33"))
 def accept_ct_k2(mc: int, p1: int, t1: int, p2: int, t2: int) -> bool:
     """
     pre: 0 <= mc <= 2 and 0 <= p1 < p2 <= 130 and 0 <= t1 <= 4 and 0 <= t2 <= 4
@@ -396,7 +396,7 @@ def accept_ct_k2(mc: int, p1: int, t1: int, p2: int, t2: int) -> bool:
     return _cell([1, 0], mc, [(p1, t1), (p2, t2)], "C33")
 
 
-@cond(q=150, t=3000, tiers=("thorough",), engine="coop", encoded=ENCODED, stubs=ASSUMPTIONS, bound=_CB % ("connection connection timeout", 2), signature=_cell_sig([1, 1, 0], "C33"), replay=_real_replay([1, 1, 0], "C33"))
+@cond(q=150, t=6500, tiers=("thorough",), engine="coop", encoded=ENCODED, stubs=ASSUMPTIONS, bound=_CB % ("connection connection timeout", 2), signature=_cell_sig([1, 1, 0], "C33"), replay=_real_replay([1, 1, 0], "C33"))
 def accept_cct_k2(mc: int, p1: int, t1: int, p2: int, t2: int) -> bool:
     """
     pre: 0 <= mc <= 2 and 0 <= p1 < p2 <= 130 and 0 <= t1 <= 4 and 0 <= t2 <= 4
